@@ -1446,11 +1446,6 @@ func (fx *FuncCtx) proveAll(hyps []Term, goals []Term, timeoutMs int, slow ...[]
 					tmo = timeoutMs * 12
 				}
 				r := solve(q, tmo, false)
-				if r.Status == "unknown" && tmo > timeoutMs {
-					// an undecided user invariant would be dropped and fail the clause it carries:
-					// one more attempt with other seeds before giving up (a refuted one is "sat")
-					r = solveRetry(q, tmo)
-				}
 				res[i] = r.Status == "unsat"
 			}
 			done <- i
